@@ -336,8 +336,14 @@ class Frame(Formattable):
         # include an additional traceback entry for the frame it's
         # running in; it would either be the same 'with' statement we
         # just yielded (3.10+) or unhelpfully the last line of the
-        # with block (earlier versions)
-        if not (self.contexts and self.contexts[-1].is_exiting):
+        # with block (earlier versions). (That only applies if we did
+        # print that context.)
+        if not (
+            opts.show_contexts
+            and self.contexts
+            and self.contexts[-1].is_exiting
+            and (opts.show_hidden_frames or not self.contexts[-1].hide)
+        ):
             linetext = self.linetext
             if linetext:
                 lines.append(start_code + linetext + "\n")
@@ -421,8 +427,13 @@ class Frame(Formattable):
         # include an additional traceback entry for the frame it's
         # running in; it would either be the same 'with' statement we
         # just yielded (3.10+) or unhelpfully the last line of the
-        # with block (earlier versions)
-        if not (self.contexts and self.contexts[-1].is_exiting):
+        # with block (earlier versions). (That only applies if we did
+        # yield an entry for that context.)
+        if not (
+            self.contexts
+            and self.contexts[-1].is_exiting
+            and (show_hidden_frames or not self.contexts[-1].hide)
+        ):
             yield self.as_stdlib_summary(capture_locals=capture_locals)
 
 
